@@ -112,9 +112,17 @@ func genCase(t *rapid.T) Case {
 	if large {
 		maxN = 8
 	}
+	minN := 0
+	if rapid.IntRange(0, 9).Draw(t, "emptyclass") == 0 {
+		maxN = 0 // the captured table is EMPTY: restoring it must empty the target
+	}
+	minPre := 0
+	if maxN == 0 {
+		minPre = 1
+	}
 	c := Case{
-		Content: genKVs(t, "c", 0, maxN, large),
-		Pre:     genKVs(t, "p", 0, 5, false),
+		Content: genKVs(t, "c", minN, maxN, large),
+		Pre:     genKVs(t, "p", minPre, 5, false),
 		Source:  rapid.SampledFrom([]string{"backup", "snapshot", "snapshot"}).Draw(t, "source"),
 	}
 	switch rapid.IntRange(0, 5).Draw(t, "memclass") {
@@ -519,7 +527,10 @@ func run(c Case, o *vt.Obs) *vt.Failure {
 	if inside {
 		o.Label("batch-threshold-crossed-inside-stream")
 	}
-	o.NonTrivial = len(c.Content) >= 3 && (inside || maxInMem == 0)
+	if len(c.Content) == 0 && len(c.Pre) > 0 {
+		o.Label("empty-table-restored-over-a-table-holding-data")
+	}
+	o.NonTrivial = (len(c.Content) >= 3 && (inside || maxInMem == 0)) || (len(c.Content) == 0 && len(c.Pre) > 0)
 	o.Describe = func() string {
 		return fmt.Sprintf("%d captured pairs, %d pre-restore pairs, max-in-mem-log-size %d (threshold at record %d, slack %d), source %s, writers %v, corrupt %d", len(c.Content), len(c.Pre), maxInMem, c.ThresholdAt, c.Slack, c.Source, c.Writers, c.Corrupt)
 	}
